@@ -148,7 +148,41 @@ fn check_code(x: u16, cx: &mut Cx) -> Res {
         }
     }
     cx.nontrivial(&(0u8, x));
-    // 2. general error type (Result Code AVP: code 1, error type x)
+    // 2. general error type (Result Code AVP: code 1, error type x); acceptance must not depend on the result code it comes with
+    for rc in [0u16, 2, 5, 7, 11, 0xffff] {
+        cx.eval();
+        let mut p = rc.to_be_bytes().to_vec();
+        p.extend_from_slice(&x.to_be_bytes());
+        let b = avp_bytes(1, 1, &p);
+        let r = one(&b, "error type", x)?;
+        if r.is_ok() != (x <= 8) {
+            return fail(format!("error-type code {} next to result code {}: {} although the code is {}", x, rc, if r.is_ok() { "accepted" } else { "rejected" }, if x <= 8 { "assigned" } else { "unassigned" }), json!({"avp": hex(&b)}));
+        }
+        if let Ok(a) = &r {
+            if *a != (SAvp { attr: 1, hidden: false, body: Body::ResultCode { code: rc, error: Some((x, None)) } }) {
+                return fail(format!("error-type code {} next to result code {} decoded to {:?}", x, rc, a), json!({"avp": hex(&b)}));
+            }
+        }
+    }
+    // the same for codes followed by surplus value octets that themselves look like an assigned code (a fixed-size field is
+    // read from its own octets only)
+    {
+        cx.evals_n(2);
+        let mut v = x.to_be_bytes().to_vec();
+        v.extend_from_slice(&[0, 6]);
+        let b = avp_bytes(1, 0, &v);
+        let r = one(&b, "message type", x)?;
+        if r.is_ok() != MSG_TYPES.contains(&x) || r.as_ref().ok().map(|a| a.body != Body::U16(x)).unwrap_or(false) {
+            return fail(format!("message-type code {} followed by the surplus octets 00 06: result {:?}", x, r), json!({"avp": hex(&b)}));
+        }
+        let mut v = x.to_be_bytes().to_vec();
+        v.extend_from_slice(&[0, 1]);
+        let b = avp_bytes(1, 29, &v);
+        let r = one(&b, "proxy authen type", x)?;
+        if r.is_ok() != (x <= 5) {
+            return fail(format!("proxy-authen-type code {} followed by the surplus octets 00 01: result {:?}", x, r), json!({"avp": hex(&b)}));
+        }
+    }
     cx.eval();
     let mut p = vec![0, 1];
     p.extend_from_slice(&x.to_be_bytes());
